@@ -321,7 +321,8 @@ let cmd_engine (args : sx list) : sx =
       let wf = if want 'w' then [A "wf"; bool_sx (wf_check string_dom a (compute_rank a) ids)] else [] in
       let snd_ = if want 's' then [A "sound"; bool_sx (lab_ok string_dom s_goodb atoms_self a (compute_lab string_dom atoms_self a) cs)] else [] in
       let cpl = if want 'c' then [A "complete"; bool_sx (cert_complete (char_entails N.eqb) (char_refutes N.eqb) a cs pres)] else [] in
-      L (wf @ snd_ @ cpl)
+      let tgt = if want 't' then [A "tight"; bool_sx (s_keys_tight a cs)] else [] in
+      L (wf @ snd_ @ cpl @ tgt)
   | [A "cert"; A "mat"; A which; aut; pats; present] ->
       let a = sx_automaton sx_mkey (sx_ccons sx_mkey) aut in
       let cs = sx_list (fun p -> m_cvec (sx_mpat p)) pats in
